@@ -80,12 +80,14 @@ func useAccessors(s *interpreter.State) {
 	}
 }
 
-// scribble overwrites every byte of every stack copy handed to a debugger callback
+// scribble overwrites every byte of every stack copy handed to a debugger callback, spare capacity included
 func scribble(s *interpreter.State) {
 	for _, st := range [][][]byte{s.DataStack, s.AltStack, s.ElseStack, s.SavedFirstStack} {
 		for _, item := range st {
-			for i := range item {
-				item[i] ^= 0xA5
+			// up to the capacity: a debugger may append to what it was given (an empty item included)
+			full := item[:cap(item)]
+			for i := range full {
+				full[i] ^= 0xA5
 			}
 		}
 	}
